@@ -22,6 +22,7 @@ def _sim():
 
 
 _COUNTER = [0]
+_OUTSIDE = "<outside any simulation>"
 
 
 def _name(prefix):
@@ -99,9 +100,19 @@ class RLock:
         return self.name
 
     def acquire(self, blocking=True, timeout=-1):
+        if current_sim() is None:
+            # outside any simulation (a Plan being built before its run is simulated, or inspected afterwards):
+            # one thread at a time by construction - plain re-entrancy bookkeeping, no scheduling
+            if self.owner not in (None, _OUTSIDE):
+                self.count = 0     # held by a thread of a simulation that is over (torn down mid-run): free
+            self.owner = _OUTSIDE
+            self.count += 1
+            return True
         sim = _sim()
         sim.op_enter(("acquire", self.name))
         me = sim.current
+        if self.owner is not None and self.owner is not me and (self.owner is _OUTSIDE or self.owner not in sim.threads):
+            self.owner, self.count = None, 0   # left over from outside / from a simulation that is over
         if self.owner is me:
             self.count += 1
             return True
@@ -120,6 +131,13 @@ class RLock:
         return False
 
     def release(self):
+        if current_sim() is None:
+            if self.owner is not _OUTSIDE:
+                raise RuntimeError("cannot release un-acquired lock")
+            self.count -= 1
+            if self.count == 0:
+                self.owner = None
+            return
         sim = _sim()
         if self.owner is not sim.current:
             raise RuntimeError("cannot release un-acquired lock")
